@@ -472,6 +472,19 @@ func f%d() {
        ops[0], rhs(ops[0]), ops[1], rhs(ops[1]), ops[2], rhs(ops[2]), ops[3], rhs(ops[3]))
 
 
+def unparen(e):
+    """drop one pair of parentheses when it encloses the whole expression"""
+    if not (e.startswith("(") and e.endswith(")")):
+        return e
+    depth = 0
+    for i, c in enumerate(e):
+        depth += c == "("
+        depth -= c == ")"
+        if depth == 0 and i < len(e) - 1:
+            return e
+    return e[1:-1]
+
+
 def s_opassign_ints(r, n):
     """compound assignments on integers whose right-hand side is a non-trivial expression"""
     t = r.choice(T32)
@@ -483,12 +496,13 @@ def s_opassign_ints(r, n):
         elif op in ("<<=", ">>="):
             e = r.choice(["1", "3", "s", "s + 1", "s * 2", "33"])
         else:
-            e = ie(r, t, ["a", "b", "x"], 2).strip("()") if r.random() < 0.7 else ie(r, t, ["a", "b"], 1)
+            e = unparen(ie(r, t, ["a", "b", "x"], 2)) if r.random() < 0.7 else ie(r, t, ["a", "b"], 1)
         lines.append("\tx %s %s\n\tprintln(x)\n" % (op, e))
     return "opassign", """func f%d() {
 	var a, b, x %s = %s, %s, %s
 	var s uint8 = %d
-%s}
+%s	println(s, a, b)
+}
 """ % (n, t, lit(r, t), lit(r, t), lit(r, t), r.choice([0, 1, 2, 5, 9]), "".join(lines))
 
 
